@@ -46,6 +46,19 @@ func curveWeight(name string) int {
 // witness for every failure class known on the unchanged tree, so that the set
 // of violation signatures does not depend on what the seeded sampling picks.
 func alwaysKeep(c *emuCase) bool {
+	if c.Curve == "BW6-761" {
+		// six times the cost of a 4-limb curve: only the classes of the property
+		// statement; every failure class seen on it is also seen on a cheaper curve
+		if !c.Complete && (c.Op == "ScalarMul" || c.Op == "ScalarMulBase") {
+			return false
+		}
+		switch c.Op {
+		case "ScalarMul":
+			return c.Class == "s=0,P=R1" || c.Class == "s=1,P=R1" || c.Class == "s=r-1,P=R1" || c.Class == "s=random,P=inf" || c.Class == "s=r+1,P=R1"
+		case "ScalarMulBase":
+			return c.Class == "s=0" || c.Class == "s=1"
+		}
+	}
 	switch c.Op {
 	case "ECMul":
 		for _, s := range []string{"s=0,P=R1", "s=r-1,P=R1", "s=1,P=G", "s=1,P=R1", "s=0,P=inf", "s=random,P=inf", "s=r-2,P=R1", "s=r,P=R1", "s=r+1,P=R1",
@@ -68,6 +81,9 @@ func alwaysKeep(c *emuCase) bool {
 		return c.Class == "inf+inf" || c.Class == "G+G" || c.Class == "G+-G" || c.Class == "inf+R1" || c.Class == "R1+inf" || c.Class == "R1+R2"
 	case "JointScalarMulBase":
 		return c.Class == "P=R1,s=random,random" || c.Class == "P=inf,s=random,random" || c.Class == "P=G,s=1,r-1(sum=inf)"
+	case "MultiScalarMul":
+		// the 2-chain Curve wrapper (emulated scalar type packed into a native variable)
+		return strings.HasPrefix(c.Pkg, "sw_bls") && (c.Class == "n=2,random" || c.Class == "n=2,oversized")
 	}
 	return false
 }
